@@ -105,6 +105,10 @@ type task struct {
 	opSteps  int64
 	lastSite uint32
 	blocked  any // simulated primitive this task waits for
+	// ext: the task is blocked on something the simulator does not own (a channel, a real
+	// lock, a WaitGroup) and the watchdog has granted the baton past it (DESIGN §2.4)
+	ext      atomic.Bool
+	inLib    atomic.Bool // inside an operation (library code or its wrapper), not in harness bookkeeping
 	stallTo  int64
 	prio     int
 	since    int64 // yields since it got the baton
@@ -148,6 +152,10 @@ type sim struct {
 	exited         sync.WaitGroup
 	foreign        int64
 	countOnly      bool
+	extEnabled     bool // the tree under test can block for real: grant the baton past blocked tasks
+	extMu          sync.Mutex
+	degraded       bool
+	extEvents      int
 	countSites     bool
 	cover          []uint8   // countOnly: yield sites executed
 	trace          *[]uint32 // countOnly: the sequence of yield sites
@@ -198,11 +206,79 @@ func (s *sim) Yield(site uint32) {
 	if t == nil {
 		return
 	}
-	if rt.Getg() != t.g {
+	if g := rt.Getg(); g != t.g {
+		if s.extEnabled {
+			for _, me := range s.tasks {
+				if me.g == g && me.ext.Load() {
+					// a task that was blocked for real has come back: it waits for the baton
+					s.reenter(me)
+					s.yield(me, site)
+					return
+				}
+			}
+		}
 		atomic.AddInt64(&s.foreign, 1)
 		return
 	}
 	s.yield(t, site)
+}
+
+// reenter: a task whose external blocking ended takes the baton if nobody is running,
+// otherwise parks until it is scheduled again.
+func (s *sim) reenter(me *task) {
+	s.extMu.Lock()
+	me.ext.Store(false)
+	h := s.cur.Load()
+	if h == nil || h == me || h.done || h.ext.Load() || h.blocked != nil {
+		s.cur.Store(me)
+		s.extMu.Unlock()
+		return
+	}
+	s.extMu.Unlock()
+	<-me.resume
+	if s.aborted != "" {
+		panic(runAbort{})
+	}
+}
+
+// ensureBaton is called by a task when it returns from library code into harness
+// bookkeeping: if the watchdog granted the baton away while it was blocked, it waits.
+func (s *sim) ensureBaton(t *task) {
+	if s.extEnabled && t.ext.Load() {
+		s.reenter(t)
+	}
+}
+
+// grantPast is called by the watchdog when no yield happened for a while: if the baton
+// holder is inside an operation, it is taken to be blocked for real and the next parked task
+// gets the baton.  The run is degraded: its schedule is no longer a pure function of the seed.
+func (s *sim) grantPast() bool {
+	s.extMu.Lock()
+	defer s.extMu.Unlock()
+	t := s.cur.Load()
+	if t == nil || t.done || t.ext.Load() || !t.inLib.Load() {
+		return false
+	}
+	for _, u := range s.tasks {
+		if u != t && !u.done && u.blocked == nil && !u.ext.Load() {
+			t.ext.Store(true)
+			s.degraded = true
+			s.extEvents++
+			s.cur.Store(u)
+			u.resume <- struct{}{}
+			return true
+		}
+	}
+	return false
+}
+
+func (s *sim) anyExt() bool {
+	for _, u := range s.tasks {
+		if !u.done && u.ext.Load() {
+			return true
+		}
+	}
+	return false
 }
 
 func (s *sim) yield(t *task, site uint32) {
@@ -276,7 +352,7 @@ func (s *sim) fireGC() {
 var gcHook = verifsync.DrainPools
 
 func (s *sim) eligible(t *task) bool {
-	return !t.done && t.blocked == nil
+	return !t.done && t.blocked == nil && !t.ext.Load()
 }
 
 func (s *sim) others(t *task, honourStall bool) []*task {
@@ -463,7 +539,7 @@ func (s *sim) Block(key any, what string) {
 	if t.inOp {
 		s.suspInOp++
 	}
-	if !s.leave(t) {
+	if !s.leave(t) && !s.anyExt() {
 		// every unfinished task waits for a simulated primitive: deadlock
 		s.fails = append(s.fails, failure{Oracle: "O6", Task: t.id, Op: t.opIdx, Key: t.plan.Ops[t.opIdx].Key.String(),
 			Detail: "deadlock: every unfinished task is blocked on a simulated sync primitive; last: " + what})
@@ -504,11 +580,17 @@ type runResult struct {
 	Aborted    string
 	Ops        int
 	Infeasible int
+	Degraded   bool // the watchdog granted the baton past a task that was blocked for real
+	ExtEvents  int
 	Foreign    int64
 	Outcomes   []uint64    // per (task, op) outcome hash, in task-major order
 	Retained   []*retained // values still held (not overwritten) by the tasks at the end of the run
 	Texts      []string    // with wantText
 }
+
+// extBlockEnabled: the instrumented tree contains channel operations, real sync primitives
+// or goroutines of its own (set by the driver with -extblock)
+var extBlockEnabled bool
 
 type execOpts struct {
 	lit      *Schedule
@@ -544,15 +626,22 @@ func (s *sim) taskMain(t *task, outcomes [][]uint64, texts [][]string) {
 	for i := range t.plan.Ops {
 		t.opIdx = i
 		t.opSteps = 0
+		s.ensureBaton(t)
 		s.yield(t, siteBoundary)
 		s.checkOneRetained(t)
 		op := &t.plan.Ops[i]
 		s.doOp(t, i, op, outcomes, texts)
 	}
 	t.opIdx = len(t.plan.Ops)
+	s.ensureBaton(t)
 	t.done = true
 	if !s.leave(t) {
 		s.endSegment(t, true)
+		if s.anyExt() {
+			// somebody is blocked for real and will take the baton when it comes back
+			s.exited.Done()
+			return
+		}
 		for _, u := range s.tasks {
 			if !u.done {
 				// nobody can run but somebody has not finished: deadlock among simulated primitives
@@ -587,7 +676,10 @@ func (s *sim) doOp(t *task, i int, op *OpPlan, outcomes [][]uint64, texts [][]st
 		s.faults["shared-read"]++
 	}
 	t.inOp = true
+	t.inLib.Store(true)
 	res := runOpX(op.Key, sh, s.wantText, op.Fresh)
+	t.inLib.Store(false)
+	s.ensureBaton(t)
 	t.inOp = false
 	outcomes[t.id][i] = res.hash
 	s.logHash = (s.logHash ^ res.hash) * 0x100000001b3
@@ -598,7 +690,10 @@ func (s *sim) doOp(t *task, i int, op *OpPlan, outcomes [][]uint64, texts [][]st
 	if op.Twice {
 		s.faults["repeat"]++
 		t.inOp = true
+		t.inLib.Store(true)
 		res2 := runOpX(op.Key, sh, false, op.Fresh)
+		t.inLib.Store(false)
+		s.ensureBaton(t)
 		t.inOp = false
 		s.checkOutcome(t, i, op.Key, res2.hash, "O2")
 		if sh == nil {
@@ -680,6 +775,7 @@ func execRun(plan *Plan, o execOpts) *runResult {
 	if s.cfg.Gran == 0 {
 		s.cfg.Gran = 0xff
 	}
+	s.extEnabled = extBlockEnabled
 	res := &runResult{}
 	// prologue: shared subjects are parsed solo, before any task exists
 	for i, k := range plan.Shared {
@@ -768,9 +864,11 @@ wait:
 			break wait
 		case <-wd.C:
 			cur := atomic.LoadInt64(&s.progress)
-			if cur == last {
+			if cur == last && s.extEnabled && s.grantPast() {
+				stuck = 0
+			} else if cur == last {
 				stuck++
-				if stuck >= 20 {
+				if stuck >= int(10*time.Second/watchdogEvery) {
 					s.aborted = "external block (no yield for 10 s of real time)"
 					res.Fails = append(res.Fails, failure{Oracle: "HARNESS", Detail: s.aborted})
 					break wait
@@ -820,6 +918,7 @@ wait:
 	res.Faults = s.faults
 	res.Aborted = s.aborted
 	res.Infeasible = s.infeasible
+	res.Degraded, res.ExtEvents = s.degraded, s.extEvents
 	res.Foreign = atomic.LoadInt64(&s.foreign)
 	for _, o := range outcomes {
 		res.Outcomes = append(res.Outcomes, o...)
@@ -832,7 +931,7 @@ wait:
 	return res
 }
 
-const watchdogEvery = 500 * time.Millisecond
+const watchdogEvery = 50 * time.Millisecond
 
 // checkDisjoint is the structural accelerator of O4: results of different calls must not
 // reach the same memory; a hit is reported only after it has been witnessed through the API
